@@ -35,7 +35,11 @@ RULE = ("syn: random sizes n_o in 1..5, n_t in 1..3, n_b in 1..5, random positio
         "getters and GridWriter.save_* + load, the returned objects scaled/overwritten in place between calls, and in 60 % "
         "of the histories fg.factor is re-assigned once or twice; every answer must equal the first answer of a fresh object "
         "built with the factor currently assigned and follow the statement with that factor (failure is shrunk to a two-call history); alias: every getter alone: "
-        "call, overwrite the returned object, call again. A case is distinct by its full input; non-trivial when at least one matrix has a stored entry from each of "
+        "call, overwrite the returned object, call again; rep: exhaustive sweep factor representation (Python int/float, "
+        "np.float64/float32/int64, 0-d float/int ndarray, squeezed 1-element array, Fraction) x two small grids x both modes x "
+        "(borders-, distances-, volumes-first), and a seed-chosen representation of factor / grid names / radial text (str, "
+        "np.str_) / position_grid_cartesian (bool, np.bool_, 0/1) for every syn, real, hist and alias case; after every getter "
+        "fg.factor must still denote the constructor's number. A case is distinct by its full input; non-trivial when at least one matrix has a stored entry from each of "
         "the two families (position and rotation) or, for n_b = 1 / n_P = 1, from the one family that exists")
 CHUNK = 40
 SELS = ("adjacency", "border_len", "center_distances")
@@ -112,6 +116,133 @@ def rat_rows(A):
 
 def finite(A):
     return bool(np.all(np.isfinite(np.asarray(A, dtype=float))))
+
+
+# ------------------------------------------------------------------------------------------------------------------
+# input representations: the same mathematical input in the representations the public API accepts on the unchanged tree
+# ------------------------------------------------------------------------------------------------------------------
+# Established on the unchanged tree (two grids x both position modes x f in {2, 1.5, 0.75, 3}, all five observables compared
+# with the Python-float object to 1e-12): every representation below is accepted and gives the same answers.
+F_REPS = ("py_float", "np_float64", "arr0d_float", "squeezed", "fraction",      # every float f
+          "np_float32",                                                       # f, f^2, f^3 exact in float32
+          "py_int", "np_int64", "arr0d_int")                                  # integer-valued f
+STR_REPS = ("str", "np_str")
+CART_REPS = ("bool", "np_bool", "int01")
+# representations of the factor that the unchanged tree does not accept (left out; re-probed and recorded on every run)
+F_REPS_EXCLUDED = {
+    "arr1d": "1-element 1-d ndarray np.array([f]): ValueError 'coordinates and data arrays must be 1-D' in coo_array (fullgrid.py:262)",
+    "decimal": "decimal.Decimal(f): TypeError float * Decimal in _get_N_N (fullgrid.py:262)",
+    "text": "str(f): TypeError str ** int in _get_N_N (fullgrid.py:254)",
+}
+
+
+def make_factor(f, rep):
+    from fractions import Fraction
+    if rep in (None, "as_given"):
+        return f
+    if rep == "py_float":
+        return float(f)
+    if rep == "np_float64":
+        return np.float64(f)
+    if rep == "np_float32":
+        return np.float32(f)
+    if rep == "arr0d_float":
+        return np.array(float(f))
+    if rep == "squeezed":
+        return np.squeeze(np.array([[float(f)]]))
+    if rep == "fraction":
+        return Fraction(f)
+    if rep == "py_int":
+        return int(f)
+    if rep == "np_int64":
+        return np.int64(f)
+    if rep == "arr0d_int":
+        return np.array(int(f))
+    if rep == "arr1d":
+        return np.array([float(f)])
+    if rep == "decimal":
+        from decimal import Decimal
+        return Decimal(f)
+    if rep == "text":
+        return str(f)
+    raise core.HarnessError(f"unknown factor representation {rep}")
+
+
+def f_reps_for(f):
+    """the representations that denote exactly the number f"""
+    out = ["py_float", "np_float64", "arr0d_float", "squeezed", "fraction"]
+    with np.errstate(all="ignore"):
+        g = np.float32(f)
+        if float(g) == float(f) and float(g * g) == float(f) ** 2 and float(g * g * g) == float(f) ** 3:
+            out.append("np_float32")
+    if float(f) == int(f):
+        out += ["py_int", "np_int64", "arr0d_int"]
+    return out
+
+
+def make_str(x, rep):
+    return np.str_(x) if rep == "np_str" else str(x)
+
+
+def make_cart(c, rep):
+    if rep == "np_bool":
+        return np.bool_(c)
+    if rep == "int01":
+        return int(bool(c))
+    return bool(c)
+
+
+def ctor_args(case, factor=None):
+    """positional and keyword arguments of FullGrid / GridWriter for this case in the representation it names"""
+    rep = case.get("rep") or {}
+    f = case["f"] if factor is None else factor
+    frep = rep.get("f")
+    if factor is not None and frep not in (None, "as_given") and frep not in f_reps_for(f):
+        frep = "py_float"            # a re-assigned factor that this representation cannot denote exactly
+    args = (make_str(case["b"], rep.get("b")), make_str(case["o"], rep.get("o")), make_str(case["t"], rep.get("t")))
+    kw = {"factor": make_factor(f, frep)}
+    if "cart" in case:
+        kw["position_grid_cartesian"] = make_cart(case["cart"], rep.get("cart"))
+    return args, kw
+
+
+def draw_rep(rng, f, plain=0.35):
+    """seed-chosen representation of the constructor arguments of one case"""
+    if rng.random() < plain:
+        return {"f": "as_given", "b": "str", "o": "str", "t": "str", "cart": "bool"}
+    return {"f": rng.choice(f_reps_for(f)), "b": rng.choice(STR_REPS), "o": rng.choice(STR_REPS), "t": rng.choice(STR_REPS),
+            "cart": rng.choice(CART_REPS)}
+
+
+def denotes(x, f):
+    """does the object x (whatever its type) still denote the number f?"""
+    try:
+        return np.ndim(x) == 0 and float(x) == float(f)
+    except Exception:
+        return False
+
+
+def factor_drift(fg, f, where, out):
+    """after every getter: fg.factor must still denote the number it was given"""
+    if "factor_drift" not in out and not denotes(fg.factor, f):
+        out["factor_drift"] = {"after": where, "expected": float(f), "found": repr(fg.factor), "type": type(fg.factor).__name__}
+
+
+def probe_excluded():
+    """outcome, on the tree under test, of the factor representations that are left out (for the evidence only)"""
+    from molgri.space.fullgrid import FullGrid
+    res = {}
+    for rep in F_REPS_EXCLUDED:
+        try:
+            with core.quiet():
+                fg = FullGrid("1", "ico_5", "[0.2,0.3]", factor=make_factor(2.0, rep))
+                fg.get_full_borders()
+                fg.get_full_distances()
+                fg.get_total_volumes()
+            res[rep] = "accepted on this tree (not used: excluded on the reference tree)"
+        except Exception as e:
+            res[rep] = f"raises {type(e).__name__}"
+    return res
 
 
 # ------------------------------------------------------------------------------------------------------------------
@@ -205,8 +336,10 @@ def real_cases(ctx):
             continue
         f = rng.choice(f_list) if rng.random() < 0.5 else round(math.exp(rng.uniform(math.log(0.2), math.log(5))), 4)
         out.append({"kind": "real", "b": b, "o": o, "t": t, "f": f, "cart": cart})
+    for c in out:
+        c["rep"] = draw_rep(rng, c["f"])
     if ctx.quick:
-        # quick runs the first 55 of the shuffled sweep per seed (cases() applies the cut); thorough runs all of it
+        # quick runs the first part of the shuffled sweep per seed (cases() applies the cut); thorough runs all of it
         rng.shuffle(out)
     return out
 
@@ -280,7 +413,7 @@ def syn_cases(ctx):
         Vrot = [rng.randint(1, 64) / 16.0 if dyadic else rng.uniform(0.01, 5) for _ in range(n_b)]
         if rng.random() < 0.1:
             Vpos[rng.randrange(nP)] = 0.0
-        yield {"kind": "syn", "style": style, "o": o_by_n[n_o], "t": t_by_n[n_t], "b": b_by_n[n_b], "f": f,
+        yield {"kind": "syn", "style": style, "o": o_by_n[n_o], "t": t_by_n[n_t], "b": b_by_n[n_b], "f": f, "rep": draw_rep(rng, f, plain=0.5),
                "P": {s: P[s].tolist() for s in SELS}, "R": {s: R[s].tolist() for s in SELS}, "Vpos": Vpos, "Vrot": Vrot}
 
 
@@ -297,10 +430,13 @@ def cases(ctx):
         c = next(syn, None)
         if c is not None:
             yield c
+    yield from rep_sweep(ctx)
     alias = [{"kind": "alias", "b": "cube4D_4", "o": "ico_6", "t": "[0.2,0.3]", "f": 2, "cart": ctx.rng.random() < 0.5}]
     if not ctx.quick:
         alias += [{"kind": "alias", "b": "randomQ_5", "o": "cube3D_8", "t": "[0.1,0.2,0.4]", "f": 0.5, "cart": True},
                   {"kind": "alias", "b": "1", "o": "randomS_9", "t": "linspace(0.2,0.5,4)", "f": 3, "cart": False}]
+    for c in alias:
+        c["rep"] = draw_rep(ctx.rng, c["f"], plain=0.0)
     for k, c in enumerate(real):
         if k >= budget_real:
             break
@@ -415,31 +551,39 @@ def _scribble(x, how):
 
 def _new_writer(case, tmp, factor=None):
     from molgri.io import GridWriter
-    gw = GridWriter(case["b"], case["o"], case["t"], factor=case["f"] if factor is None else factor,
-                    position_grid_cartesian=case["cart"])
+    args, kw = ctor_args(case, factor)
+    gw = GridWriter(*args, **kw)
     gw._c02_dir = tmp
     return gw
 
 
+def _plain(case):
+    """the same grid with every constructor argument in its plain Python representation (the reference)"""
+    return {k: v for k, v in case.items() if k != "rep"}
+
+
 def _run_history(case, steps, tmp, noscribble):
-    """answers (snapshots taken before scribbling) of one object along a history, with the factor in effect at each step.
-    The step {"op": "set_factor", "value": v} assigns fg.factor = v (the attribute every getter reads)."""
+    """answers (snapshots taken before scribbling) of one object along a history, the factor in effect at each step and,
+    per step, what fg.factor shows if it no longer denotes that factor.
+    The step {"op": "set_factor", "value": v, "rep": r} assigns fg.factor = v in representation r."""
     gw = _new_writer(case, tmp)
-    answers, factors = [], []
+    answers, factors, drift = [], [], []
     fcur = case["f"]
     for st in steps:
         if st["op"] == "set_factor":
-            gw.fg.factor = st["value"]
+            gw.fg.factor = make_factor(st["value"], st.get("rep"))
             fcur = st["value"]
             answers.append(("array", np.array([float(gw.fg.factor)])))
             factors.append(fcur)
+            drift.append(None)
             continue
         x = HIST_OPS[st["op"]][0](gw)
         answers.append(_snap(x))
         factors.append(fcur)
+        drift.append(None if denotes(gw.fg.factor, fcur) else f"{gw.fg.factor!r} ({type(gw.fg.factor).__name__})")
         if st.get("scribble") and st["op"] not in noscribble:
             _scribble(x, st["scribble"])
-    return answers, factors
+    return answers, factors, drift
 
 
 STATEMENT_OPS = {"adjacency": "adjacency", "save_adjacency": "adjacency", "borders": "border_len", "save_borders": "border_len",
@@ -480,9 +624,9 @@ def history_check(case, out):
                 f = case["f"] if f is None else f
                 base = HIST_OPS[op][1] or op
                 if (base, f) not in ref:
-                    ref[(base, f)] = _snap(HIST_OPS[base][0](_new_writer(case, tmp, f)))
+                    ref[(base, f)] = _snap(HIST_OPS[base][0](_new_writer(_plain(case), tmp, f)))
                 return ref[(base, f)]
-            answers, factors = _run_history(case, steps, tmp, noscribble)
+            answers, factors, drift = _run_history(case, steps, tmp, noscribble)
             for k, (st, ans, fcur) in enumerate(zip(steps, answers, factors)):
                 if st["op"] == "set_factor":
                     if float(ans[1][0]) != float(st["value"]):
@@ -492,7 +636,7 @@ def history_check(case, out):
                     continue
                 r = reference(st["op"], fcur)
                 same, stated = _same(ans, r), _statement_ok(st["op"], ans, fcur, out)
-                if same and stated:
+                if same and stated and drift[k] is None:
                     continue
                 # shrink: the last assignment of the factor (if any), one earlier call, then this call, on a new object
                 last_set = max((j for j in range(k) if steps[j]["op"] == "set_factor"), default=None)
@@ -501,12 +645,14 @@ def history_check(case, out):
                     if j != last_set:
                         cands.append([steps[i] for i in sorted({j, k} | ({last_set} if last_set is not None else set()))])
                 minimal = steps[:k + 1]
-                for cand in cands:
-                    a2, f2 = _run_history(case, cand, tmp, noscribble)
-                    if f2[-1] == fcur and not (_same(a2[-1], r) and _statement_ok(st["op"], a2[-1], fcur, out)):
+                for cand in ([[st]] if last_set is None else []) + cands:
+                    a2, f2, d2 = _run_history(case, cand, tmp, noscribble)
+                    if f2[-1] == fcur and not (_same(a2[-1], r) and _statement_ok(st["op"], a2[-1], fcur, out) and d2[-1] is None):
                         minimal = cand
                         break
                 why = []
+                if drift[k] is not None:
+                    why.append(f"leaves fg.factor = {drift[k]} behind, which no longer denotes the factor {fcur}")
                 if not same:
                     why.append(f"differs from the first answer of a fresh object built with factor {fcur}")
                 if not stated:
@@ -532,6 +678,83 @@ def history_check(case, out):
     finally:
         shutil.rmtree(tmp, ignore_errors=True)
     return res
+
+
+_rep_ref = {}
+
+
+def _rep_reference(case):
+    """first answers of a fresh object whose constructor arguments are plain Python values, and the public sub-grid
+    quantities the statement is evaluated with (cached per grid within the process)"""
+    key = (case["b"], case["o"], case["t"], float(case["f"]), bool(case["cart"]))
+    if key not in _rep_ref:
+        from molgri.space.fullgrid import FullGrid
+        plain = _plain(case)
+        ref = {}
+        for op in ("adjacency", "borders", "distances", "volumes", "prefactors"):
+            args, kw = ctor_args(plain)
+            gw = type("W", (), {})()
+            gw.fg = FullGrid(*args, **kw)
+            ref[op] = _snap(HIST_OPS[op][0](gw))
+        args, kw = ctor_args(plain)
+        fg = FullGrid(*args, **kw)
+        pg, br = fg.get_position_grid(), fg.b_rotations
+        nb = int(fg.get_b_N())
+        sub = {"n_P": int(len(pg)), "n_b": nb,
+               "pubP": {"adjacency": np.asarray(pg.get_adjacency_of_position_grid().toarray(), dtype=float),
+                        "border_len": np.asarray(pg.get_borders_of_position_grid().toarray(), dtype=float),
+                        "center_distances": np.asarray(pg.get_distances_of_position_grid().toarray(), dtype=float)},
+               "pubR": ({"adjacency": np.asarray(br.get_voronoi_adjacency().toarray(), dtype=float),
+                         "border_len": np.asarray(br.get_cell_borders().toarray(), dtype=float),
+                         "center_distances": np.asarray(br.get_center_distances().toarray(), dtype=float)} if nb > 1
+                        else {s_: np.zeros((1, 1)) for s_ in SELS}),
+               "Vpos": np.asarray(pg.get_all_position_volumes(), dtype=float),
+               "Vrot": np.asarray(br.get_spherical_voronoi().get_voronoi_volumes(), dtype=float)}
+        _rep_ref[key] = (ref, sub)
+    return _rep_ref[key]
+
+
+def rep_check(case):
+    """one object built from the named representation of its arguments; the getters in the given order, then again;
+    every answer = the answer of the plain-Python object = the statement with the denoted factor; fg.factor untouched"""
+    from molgri.space.fullgrid import FullGrid
+    ref, sub = _rep_reference(case)
+    args, kw = ctor_args(case)
+    gw = type("W", (), {})()
+    gw.fg = FullGrid(*args, **kw)
+    calls = list(case["order"]) + list(case["order"][:2]) + ["prefactors", "adjacency"]
+    res = {"calls": len(calls), "failures": []}
+    for k, op in enumerate(calls):
+        ans = _snap(HIST_OPS[op][0](gw))
+        why = []
+        if not _same(ans, ref[op]):
+            why.append("differs from the answer of the same grid built from plain Python arguments")
+        if not _statement_ok(op, ans, case["f"], sub):
+            why.append(f"does not follow the statement with f = {case['f']} (f to distances, f^2 to borders, f^3 to volumes)")
+        if not denotes(gw.fg.factor, case["f"]):
+            why.append(f"leaves fg.factor = {gw.fg.factor!r} ({type(gw.fg.factor).__name__}) behind, which no longer denotes {case['f']}")
+        if why:
+            res["failures"].append({"op": op, "call_sequence": calls[:k + 1], "why": "; ".join(why),
+                                    "plain_object": _describe(ref[op]), "this_object": _describe(ans)})
+            break
+    return res
+
+
+def rep_sweep(ctx):
+    """exhaustive: factor families x two small grids x both position modes x (borders-, distances-, volumes-first)"""
+    grids = [("1", "ico_6", "[0.2,0.3]", 2), ("cube4D_4", "cube3D_5", "[0.1,0.2,0.4]", 3)]
+    if not ctx.quick:
+        grids += [("randomQ_5", "randomS_8", "linspace(0.2,0.5,4)", 1.5), ("cube4D_6", "ico_7", "[0.15,0.3,0.35,0.6]", 0.75)]
+    orders = (["borders", "distances", "volumes"], ["distances", "volumes", "borders"], ["volumes", "borders", "distances"])
+    k = 0
+    for b, o, t, f in grids:
+        for cart in (False, True):
+            for frep in f_reps_for(f):
+                for order in orders:
+                    k += 1
+                    yield {"kind": "rep", "b": b, "o": o, "t": t, "f": f, "cart": cart, "order": order,
+                           "rep": {"f": frep, "b": STR_REPS[k % 2], "o": STR_REPS[(k // 2) % 2], "t": STR_REPS[(k // 4) % 2],
+                                   "cart": CART_REPS[k % 3]}}
 
 
 def alias_probe(case):
@@ -580,11 +803,11 @@ def hist_cases(ctx, how_many):
             for _k in range(rng.choice([1, 1, 2])):
                 fnew = rng.choice([v for v in (0.5, 0.8, 1, 1.7, 2, 2.5, 3) if v != fprev])
                 pos = rng.randrange(0, len(steps) - 1)
-                steps.insert(pos, {"op": "set_factor", "value": fnew})
+                steps.insert(pos, {"op": "set_factor", "value": fnew, "rep": rng.choice(f_reps_for(fnew))})
                 fprev = fnew
             steps.append({"op": rng.choice(["distances", "borders", "save_distances"]), "scribble": None})
             steps.append({"op": rng.choice(["volumes", "save_volumes", "prefactors"]), "scribble": None})
-        yield {"kind": "hist", "b": b, "o": o, "t": t, "f": f0, "cart": cart, "ops": steps}
+        yield {"kind": "hist", "b": b, "o": o, "t": t, "f": f0, "cart": cart, "rep": draw_rep(rng, f0, plain=0.2), "ops": steps}
 
 
 # ------------------------------------------------------------------------------------------------------------------
@@ -593,11 +816,12 @@ def hist_cases(ctx, how_many):
 class _FakeVoronoi:
     """stands in for the rotation grid's cell model in the assembly layer"""
 
-    def __init__(self, mats, vols):
-        self.mats, self.vols = mats, vols
+    def __init__(self, mats, vols, used=None):
+        self.mats, self.vols, self.used = mats, vols, used if used is not None else {"R": 0}
 
     def _calculate_N_N_array(self, sel_property="adjacency", **kw):
         from scipy.sparse import coo_array
+        self.used["R"] += 1
         return coo_array(np.array(self.mats[sel_property], dtype=float))
 
     def get_voronoi_adjacency(self, **kw):
@@ -613,22 +837,29 @@ class _FakeVoronoi:
         return np.array(self.vols, dtype=float)
 
 
-def _observe(fg, out):
+def _observe(fg, out, f):
     out["n_b"] = int(fg.get_b_N())
     out["n_P"] = int(len(fg.get_position_grid()))
     out["full"] = {}
     for sel, getter in zip(SELS, (fg.get_full_adjacency, fg.get_full_borders, fg.get_full_distances)):
         out["full"][sel] = canon(getter())
+        factor_drift(fg, f, getter.__name__, out)
     out["only_position"] = canon(fg.get_full_distances(only_position=True))
     out["only_orientation"] = canon(fg.get_full_distances(only_orientation=True))
     out["only_orientation_adj"] = canon(fg.get_full_adjacency(only_orientation=True))
+    factor_drift(fg, f, "get_full_distances/get_full_adjacency(only_...)", out)
     out["V"] = np.asarray(fg.get_total_volumes(), dtype=float)
+    factor_drift(fg, f, "get_total_volumes", out)
     grid = np.asarray(fg.get_full_grid_as_array())
     pos = np.asarray(fg.get_position_grid().get_position_grid_as_array())
     quat = np.asarray(fg.b_rotations.get_grid_as_array(only_upper=True))
     out["grid_shape"] = list(grid.shape)
     out["grid"], out["pos"], out["quat"] = grid, pos, quat
     out["len"] = int(len(fg))
+    factor_drift(fg, f, "get_full_grid_as_array", out)
+
+
+_PRIVATE = __import__("re").compile(r"'_[A-Za-z]\w*'")
 
 
 def impl(case):
@@ -641,23 +872,46 @@ def impl(case):
             if case["kind"] == "alias":
                 return {"alias": alias_probe(case)}
             out = {}
+            if case["kind"] == "rep":
+                return {"rep": rep_check(case)}
             if case["kind"] == "syn":
-                fg = FullGrid(case["b"], case["o"], case["t"], factor=case["f"])
-                P = {s: np.array(case["P"][s], dtype=float) for s in SELS}
-                shared = fg.b_rotations                                 # never touch the memoised grid object
-                fg.b_rotations = object.__new__(type(shared))
-                fg.b_rotations.__dict__.update(shared.__dict__)
-                fg.b_rotations.spherical_voronoi = _FakeVoronoi(case["R"], case["Vrot"])
+                # constructor rule (DESIGN section 14): the object is built by FullGrid's own constructor from real (small)
+                # grids; then the public attribute `spherical_voronoi` of its rotation grid is overwritten for the duration
+                # of the case (and restored: the grid object is shared through the memoised factory) and the two sub-grid
+                # getters of its own PositionGrid are replaced on the instance.
                 from scipy.sparse import coo_array
+                args, kw = ctor_args(case)
+                fg = FullGrid(*args, **kw)
+                P = {s: np.array(case["P"][s], dtype=float) for s in SELS}
+                used = {"P": 0, "R": 0}
+                fake = _FakeVoronoi(case["R"], case["Vrot"], used)
+                br = fg.b_rotations
+                saved = br.spherical_voronoi
                 pg = fg.position_grid
-                pg._get_N_N_position_array = lambda sel_property="adjacency": coo_array(P[sel_property])
+
+                def injected_P(sel_property="adjacency"):
+                    used["P"] += 1
+                    return coo_array(P[sel_property])
+                pg._get_N_N_position_array = injected_P
                 pg.get_all_position_volumes = lambda: np.array(case["Vpos"], dtype=float)
-                _observe(fg, out)
+                br.spherical_voronoi = fake
+                try:
+                    try:
+                        _observe(fg, out, case["f"])
+                    except (AttributeError, TypeError) as e:
+                        if _PRIVATE.search(str(e)):
+                            return {"stub_incompatible": f"{type(e).__name__}: {str(e)[:160]}"}
+                        raise
+                finally:
+                    br.spherical_voronoi = saved
+                if used["P"] == 0 or (out["n_b"] > 1 and used["R"] == 0):
+                    return {"stub_incompatible": "the injected sub-grid getters were not called by the full-grid getters"}
                 out["P"], out["R"] = P, {s: np.array(case["R"][s], dtype=float) for s in SELS}
                 out["Vpos"], out["Vrot"] = np.array(case["Vpos"], dtype=float), np.array(case["Vrot"], dtype=float)
                 return out
-            fg = FullGrid(case["b"], case["o"], case["t"], factor=case["f"], position_grid_cartesian=case["cart"])
-            _observe(fg, out)
+            args, kw = ctor_args(case)
+            fg = FullGrid(*args, **kw)
+            _observe(fg, out, case["f"])
             nb = out["n_b"]
             pg = fg.get_position_grid()
             # what _get_N_N consumes (inputs of the model)
@@ -723,7 +977,7 @@ def impl_fold(case):
 # model side
 # ------------------------------------------------------------------------------------------------------------------
 def model_ops(case, out):
-    if "err" in out or case["kind"] == "alias":
+    if "err" in out or "stub_incompatible" in out or case["kind"] in ("alias", "rep"):
         return []
     if case["kind"] == "fold":
         if not all(finite(out["A"][s]) for s in SELS):
@@ -773,6 +1027,23 @@ def compare(ctx, case, out, mouts):
     kind = case["kind"]
     if "err" in out:
         ctx.branch(f"{kind}:error:{out['err']}")
+        return
+    if "stub_incompatible" in out:
+        ctx.branch("stub_incompatible")
+        if not any(n.startswith("NOTE stub_incompatible") for n in getattr(ctx, "notes", [])):
+            ctx.note("NOTE stub_incompatible: a synthetic (injected) case could not be run on this tree: " + out["stub_incompatible"]
+                     + " - counted, neither a correspondence break nor a failing input; checks on really constructed objects are unaffected")
+        return
+    if "rep" in case:
+        r = case["rep"]
+        ctx.branch(f"representation:factor={r.get('f')}")
+        ctx.branch(f"representation:names={r.get('b')}/{r.get('o')}/{r.get('t')}")
+        if "cart" in case:
+            ctx.branch(f"representation:cartesian_flag={r.get('cart')}")
+    if kind == "rep":
+        ctx.branch("representation_sweep:objects")
+        ctx.branch("representation_sweep:calls", out["rep"]["calls"])
+        ctx.nt(("rep", case["b"], case["o"], case["cart"], case["rep"]["f"], "-".join(case["order"])))
         return
     if kind == "alias":
         ctx.branch("alias_probe:getters", out["alias"]["probed"])
@@ -898,8 +1169,23 @@ def oracle(ctx, case, out):
             return
         ctx.fail(K + "exception", f"building the grid / its matrices raised {out['err']}: {out.get('msg')}", case)
         return
+    if "stub_incompatible" in out:
+        return
     if kind == "fold":
         return oracle_fold(ctx, case, out, K)
+    if kind == "rep":
+        for fl in out["rep"]["failures"]:
+            r = case["rep"]
+            ctx.fail(K + f"representation:{fl['op']}", f"FullGrid built with factor = {r['f']}({case['f']}), names as {r['b']}/{r['o']}/{r['t']}, "
+                     f"position_grid_cartesian as {r['cart']}: after the calls  {' -> '.join(fl['call_sequence'])}  the answer of {fl['op']} {fl['why']}",
+                     dict(case, order=fl["call_sequence"][:3] if len(fl["call_sequence"]) >= 3 else case["order"]),
+                     fl["plain_object"], fl["this_object"])
+        return
+    if "factor_drift" in out:
+        d = out["factor_drift"]
+        ctx.fail(K + "factor_changed", f"after {d['after']} the attribute fg.factor is {d['found']} ({d['type']}), which no longer denotes the "
+                 f"factor {d['expected']} the grid was built with (representation {(case.get('rep') or {}).get('f', 'as_given')})", case,
+                 d["expected"], d["found"])
     if kind == "alias":
         for a in out["alias"]["aliases"]:
             if a["op"] in OUTSIDE_PROPERTY_ALIASES:
@@ -995,10 +1281,10 @@ def oracle_history(ctx, case, out):
     """every answer along the history must be the first answer of a fresh object (whose answers the clauses below check)"""
     h = out["hist"]
     for fl in h["failures"]:
-        hist = " -> ".join((f"fg.factor = {st['value']}" if st["op"] == "set_factor" else st["op"]) +
+        hist = " -> ".join((f"fg.factor = {st.get('rep') or 'as_given'}({st['value']})" if st["op"] == "set_factor" else st["op"]) +
                            ({"scale": "[returned object scaled in place]", "overwrite": "[returned object overwritten in place]"}.get(st.get("scribble"), ""))
                            for st in fl["minimal_history"])
-        ctx.fail(f"C02:history:{fl['op']}", f"on one FullGrid object (built with factor {case['f']}) after the history  {hist}  the answer of "
+        ctx.fail(f"C02:history:{fl['op']}", f"on one FullGrid object (built with factor {(case.get('rep') or {}).get('f', 'as_given')}({case['f']})) after the history  {hist}  the answer of "
                  f"{fl['op']} {fl.get('why', 'differs from a fresh object')} (state left by earlier calls / aliasing / stale copies of the factor)",
                  dict(case, ops=fl["minimal_history"]), fl["fresh_object"], fl["this_object"])
     # the references are the data the statement-level clauses are evaluated on
@@ -1112,7 +1398,10 @@ def _merge(ctx, result):
     ctx.driver.calls += calls
     ctx.driver.lines += lines
     for kind, a in events:
-        if kind == "nt":
+        if kind == "note":
+            if a[0] not in ctx.notes:
+                ctx.note(a[0])
+        elif kind == "nt":
             ctx.nt(a[0] if isinstance(a[0], (str, int)) else tuple(a[0]))
         else:
             getattr(ctx, kind)(*a)
@@ -1129,7 +1418,17 @@ def run(ctx):
     fixed = [c for f in ctx.fixed_findings for c in f.get("cases", [])]
     opened = [c for f in ctx.open_findings for c in f.get("cases", [])]
     gen = list(cases(ctx))
-    allc = fixed + gen[:90] + opened + gen[90:]
+    allc = fixed + gen[:200] + opened + gen[200:]
+    _install()
+    ctx.extra_cov["representations"] = {
+        "factor_accepted_and_used": {r: ("every f" if r in ("py_float", "np_float64", "arr0d_float", "squeezed", "fraction") else
+                                         "f, f^2, f^3 exactly representable in float32" if r == "np_float32" else "integer-valued f")
+                                     for r in F_REPS},
+        "names_and_radial_text": list(STR_REPS), "position_grid_cartesian": list(CART_REPS),
+        "factor_left_out": F_REPS_EXCLUDED, "factor_left_out_observed_on_this_tree": probe_excluded(),
+        "rule": "established on the unchanged tree: used representations are accepted there and agree with the plain Python-float "
+                "object to 1e-12 on adjacency, borders, distances, prefactors and volumes; left-out ones raise there",
+    }
     if ctx.quick:
         for ch in _chunks(allc, CHUNK):
             _merge(ctx, _process_chunk(ch))
